@@ -523,8 +523,17 @@ class Tokenizer:
         elif char == self.quote and not self.is_escaped:
             try:
                 if self.quote == Quote.BACKTICK:
+                    # escape the double quotes of the text so that they cannot
+                    # end the triple-quoted python literal used for decoding
                     self.token_str: str = literal_eval(
-                        '"""\n' + self.token_str[1:-1] + '\n"""'
+                        '"""\n'
+                        + re.sub(
+                            r'\\.|"',
+                            lambda match: '\\"' if match[0] == '"' else match[0],
+                            self.token_str[1:-1],
+                            flags=re.DOTALL,
+                        )
+                        + '\n"""'
                     )[1:-1]
                 else:
                     self.token_str: str = literal_eval(self.token_str)
